@@ -35,7 +35,7 @@ def run(pid, tier):
                        'relative headers, empty units, junk, undefined headers, unfinished block results) with LF / CRLF / CR terminators, plus truncated streams completed by a zero-length call; '
                        'chunkings: all at once, byte at a time, every single split point, random multi-way splits; each execution is validated by TLC against ScpiParser and its observables '
                        'compared with the byte-at-a-time execution; non-trivial = a cut falls inside a token')
-    rep.assumptions += ['input buffer (64 bytes) is larger than any pending unterminated data in these streams (the stated precondition)',
+    rep.assumptions += ['input buffer (64 bytes, and for a sixth of the streams exactly the stream length + 1) holds any pending unterminated data of these streams (the stated precondition)',
                         'a CR LF pair cut between CR and LF yields an extra empty message, which is unobservable']
     rng = random.Random(lib.seed())
     streams = pc.gen(rep, 'C08', {}, nparts=8, lemmas=('Lemmas', 'L_Progress', 'L_Chunk'), timeout=1500)
@@ -57,13 +57,17 @@ def run(pid, tier):
             if t2:
                 variants.append((t2, True))       # last terminator missing: completed by a zero-length call
         for stream, flush in variants:
-            base = len(scen)
-            for ch in chunkings(stream, rng, tier):
-                sc = dict(s)
-                sc['chunks'] = ch + ([[]] if flush else [])
-                scen.append(sc)
-                refidx.append(base + 1)
-                meta.append((stream, ch))
+            # every sixth stream also with an input buffer that the stream fills exactly (all at once is still no overrun)
+            bufs = [s['buf']] + ([len(stream) + 1] if (len(scen) // 7) % 6 == 0 and len(stream) + 1 < s['buf'] else [])
+            for bsz in bufs:
+                base = len(scen)
+                for ch in chunkings(stream, rng, tier):
+                    sc = dict(s)
+                    sc['buf'] = bsz
+                    sc['chunks'] = ch + ([[]] if flush else [])
+                    scen.append(sc)
+                    refidx.append(base + 1)
+                    meta.append((stream, ch))
     obs = pc.execute(rep, scen, 'default', 'C08')
     refs = [obs[j] for j in refidx]
     pc.validate(rep, 'C08', scen, obs, 'C08-default', refs=refs, kindfn=kind, fields=pc.FIELDS['C08'])
